@@ -266,8 +266,30 @@ to itself, and the length is within the declared bounds. -/
 def Conforms (env : Env) (l : TList) : Prop :=
   (∀ x ∈ l.items, apply env l.elem false x = .ok x) ∧ sizeOk l.items.length l.mn l.mx = true
 
-/-- Structural equality of values (for the executable conformance test of the drivers). -/
-def sameB (x y : Val) : Bool := Val.pyEq x y && (x.ty == y.ty)
+mutual
+  /-- Structural equality of values, types included at every depth (for the executable
+  conformance test of the drivers: "maps to itself"). -/
+  def sameB : Val → Val → Bool
+    | .missing, .missing => true
+    | .none, .none => true
+    | .bool a, .bool b => a == b
+    | .int a, .int b => a == b
+    | .float a, .float b => a.m == b.m && a.e == b.e
+    | .str a, .str b => a == b
+    | .list a, .list b => sameL a b
+    | .tuple a, .tuple b => sameL a b
+    | .dict a, .dict b => sameK a b
+    | .obj c u p, .obj c' u' p' => c == c' && u == u' && p == p'
+    | _, _ => false
+  def sameL : List Val → List Val → Bool
+    | [], [] => true
+    | x :: xs, y :: ys => sameB x y && sameL xs ys
+    | _, _ => false
+  def sameK : List (String × Val) → List (String × Val) → Bool
+    | [], [] => true
+    | (k, x) :: xs, (l, y) :: ys => k == l && sameB x y && sameK xs ys
+    | _, _ => false
+end
 
 def conformsB (env : Env) (l : TList) : Bool :=
   l.items.all (fun x => match apply env l.elem false x with
@@ -433,6 +455,12 @@ def nestedSet (env : Env) (pb : Val → Bool) : Spec → Val → List PKey → B
       match listPrim env ⟨elem, mn, mx, items⟩ i ins a with
       | (l', none) => .ok (.list l'.items)
       | (_, some e) => .error e
+    -- a container stored under `Any` / a schema-less `Dict` is untyped: nothing is validated
+    | .any _, .dict kvs, .key k => .ok (.dict (if a.isMissing then eraseKey kvs k else setKey kvs k a))
+    | .dict none _, .dict kvs, .key k => .ok (.dict (if a.isMissing then eraseKey kvs k else setKey kvs k a))
+    | .any _, .list items, .idx i =>
+      .ok (.list (if decide (i ≥ items.length) then (if a.isMissing then items else items ++ [a])
+                  else if ins then insertAt items i a else items.set i a))
     | _, _, _ => .error .key
   | s, v, hd :: rest, ins, a =>
     match boundSpec env s v, v, hd with
@@ -447,6 +475,27 @@ def nestedSet (env : Env) (pb : Val → Bool) : Spec → Val → List PKey → B
       match items[i]? with
       | some c =>
         match nestedSet env pb elem c rest ins a with
+        | .ok c' => .ok (.list (items.set i c'))
+        | .error e => .error e
+      | none => .error .key
+    | .any f, .dict kvs, .key k =>
+      match lookup kvs k with
+      | some c =>
+        match nestedSet env pb (.any f) c rest ins a with
+        | .ok c' => .ok (.dict (setKey kvs k c'))
+        | .error e => .error e
+      | none => .error .key
+    | .dict none _, .dict kvs, .key k =>
+      match lookup kvs k with
+      | some c =>
+        match nestedSet env pb (.any ⟨true, .missing, false⟩) c rest ins a with
+        | .ok c' => .ok (.dict (setKey kvs k c'))
+        | .error e => .error e
+      | none => .error .key
+    | .any f, .list items, .idx i =>
+      match items[i]? with
+      | some c =>
+        match nestedSet env pb (.any f) c rest ins a with
         | .ok c' => .ok (.list (items.set i c'))
         | .error e => .error e
       | none => .error .key
